@@ -75,7 +75,7 @@ def candidates(p) -> List[Dict[str, Any]]:
     return out
 
 
-def minimize(p, devs, real_fn=None, max_rounds=60):
+def minimize(p, devs, real_fn=None, max_rounds=60, pred=None):
     from . import djc
     real_fn = real_fn or (lambda progs: djc.real_variant(progs, dyn=p.get("dyn", False)))
 
@@ -88,7 +88,7 @@ def minimize(p, devs, real_fn=None, max_rounds=60):
         res = []
         for q, o in zip(progs, obs):
             e = exp[q["id"]]
-            res.append((not e["zone"]) and djc.mismatch(e, o) is not None)
+            res.append((not e["zone"]) and ((djc.mismatch(e, o) is not None) if pred is None else bool(pred(q, e, o))))
         return res
 
     assert failing([copy.deepcopy(p)])[0], "program does not fail under these deviations"
